@@ -150,6 +150,25 @@ def run(chk):
         if peaks[-1] > peaks[0] + SLACK:
             chk.report_oracle("peak memory grows with the size it must be independent of",
                               {"scenario": name, "args_smallest": runs[0][0], "args_largest": runs[-1][0], "input_bytes": [n for _, n in runs], "peaks": peaks})
+    if thorough:
+        # past the last line number an i32 can hold (D26): 2^31-1 empty lines, then 64 MiB of 1 KiB lines, `-l 2:` through the real
+        # release binary under /usr/bin/time — what follows the 2^31-1st line must not be held in memory either
+        import shutil
+        from common import build_tuc
+        if shutil.which("/usr/bin/time"):
+            tuc = build_tuc(release=True)
+            cmd = (f"{{ head -c 2147483647 /dev/zero | tr '\\0' '\\n'; head -c 67108864 /dev/zero | tr '\\0' 'x' | fold -w 1023; }} | "
+                   f"/usr/bin/time -f 'maxrss_kb=%M' {tuc} -l 2: 2>&1 >/dev/null | tail -1")
+            p = subprocess.run(["bash", "-c", cmd], stdout=subprocess.PIPE, stderr=subprocess.DEVNULL, text=True, env=ENV, timeout=3600)
+            chk.evaluations += 1
+            m = __import__("re").search(r"maxrss_kb=(\d+)", p.stdout)
+            rss = int(m.group(1)) if m else -1
+            rows.append({"scenario": "-l 2: on 2^31-1 empty lines followed by 64 MiB of 1 KiB lines (real release binary, max RSS)", "input_bytes": [2147483647 + 67108864],
+                         "peak_live_heap_bytes": [rss * 1024]})
+            chk.nontrivial_add(("past-i32-lines", rss > 0))
+            if rss < 0 or rss > 32 * 1024:
+                chk.report_oracle("peak memory grows with the input once the line counter has reached the end of the i32 range",
+                                  {"shell": cmd, "max_rss_kb": rss, "limit_kb": 32 * 1024, "raw": p.stdout[-200:]})
     # sensitivity control: the documented growing case must be seen to grow
     pk1, _, _ = mem(["bt=l", "d=0a", "b=" + hx("-1"), "j=1", "pat=" + rec, "count=1000"])
     pk2, _, _ = mem(["bt=l", "d=0a", "b=" + hx("-1"), "j=1", "pat=" + rec, "count=200000"])
